@@ -246,6 +246,9 @@ impl Gs1State {
             cur.push_str(v);
         }
         let total = bodies.len();
+        // some servers end every part with a backslash, also after the query id: an empty dangling token,
+        // not a variable
+        let trailing_backslash = t.draw(DATA, 10) == 0;
         bodies
             .into_iter()
             .enumerate()
@@ -257,6 +260,8 @@ impl Gs1State {
                 s.push_str(&format!("\\queryid\\{}.{}", self.query_id, pi + 1));
                 if last && !final_first {
                     s.push_str("\\final\\");
+                } else if trailing_backslash {
+                    s.push('\\');
                 }
                 s.into_bytes()
             })
